@@ -95,6 +95,14 @@ class Grid(col.MutableSequence):
                     isinstance(v2, numbers.Real)):
                 return False
             return (v1 == v2) or (abs(v1 - v2) < 0.000001)
+        elif isinstance(v1, list) and isinstance(v2, list):
+            # Element by element: the members get the same kind-aware,
+            # tolerant and non-raising comparison as a cell of their own.
+            return len(v1) == len(v2) and \
+                   all(Grid._approx_check(i1, i2) for (i1, i2) in zip(v1, v2))
+        elif isinstance(v1, dict) and isinstance(v2, dict):
+            return set(v1.keys()) == set(v2.keys()) and \
+                   all(Grid._approx_check(v1[k], v2[k]) for k in v1.keys())
         else:
             return v1 == v2
 
